@@ -1,11 +1,16 @@
 """C14 - WFQ and VirtualClock transmit in virtual-finish-stamp order."""
 import random, collections, json
 from fractions import Fraction
-from harness.stamp import gen_case, replay, expected_stamps, order_oracle, first_diff
+from harness.stamp import gen_case, replay, expected_stamps, order_oracle, start_oracle, first_diff
 
 ASSUMPTIONS = [
     'flows are configured in flow2class and their classes in the weight / vtick table; weights, vticks, rate > 0; sizes are positive integers; an `out` is attached',
     'in 30% of the cases the packets carry a creation time (`Packet.time`) earlier than their arrival at the scheduler (ages 0 - 64 transmission times, as behind a wire); the model and the oracles order equal stamps by the arrival instant at the scheduler',
+    'oracle `stamp-order-at-start`: "transmits next the waiting packet with the smallest stamp" is also judged at the start of every transmission (the call of '
+    'send_packet) against the harness\'s own account of the waiting packets (put() returned, send_packet not yet called) instead of the contents of the '
+    'scheduler\'s store; compared are the packets handed over up to the end of the kernel step in which the chosen packet arrived, or in which the previous '
+    'transmission ended, whichever is later (the puts of one kernel step are one burst: the scheduler cannot decide in the middle of it); packets arriving '
+    'in later steps, between the decision and the call of send_packet, are not judged (DESIGN section 3, decision burst)',
     'theorems are over exact rationals; the replay compares IEEE doubles bit for bit (stamps, vtime, last_time, aux_vc, vc, clock)',
     'family `longbusy` (about 4% of the cases): one busy period of few, very large packets in which WFQ\'s virtual time passes 1e6 and more, with a light class that is idle '
     'while its finish stamp is ahead of V and returns before V has caught up; replayed through the model like every other case (magnitudes up to 1e8 s / 1e11 bytes)',
@@ -84,6 +89,8 @@ def oracle(c, run):
     fails = []
     exp, f1 = expected_stamps(c, run)
     f2, ties, full = order_oracle(run, exp)
+    f0, st0 = start_oracle(run, exp)        # the same clause at the start of each transmission, waiting set from the harness's own account
+    fails += f0
     fails += f2         # a packet transmitted ahead of one with a smaller stamp: the consequence first, then the stamps themselves
     fails += f1
     f3, pairs = fairness_oracle(c, run)
@@ -96,7 +103,7 @@ def oracle(c, run):
                           'signature': f'{c["kind"]}-raised-{typ}'})
     elif c.get('bad_flow') is not None:
         pass    # what happens with an unconfigured flow is outside the property; the model says KeyError and the replay compares
-    return fails, {'ties': ties, 'full_ties': full, 'fair_pairs': pairs}
+    return fails, {'ties': ties, 'full_ties': full, 'fair_pairs': pairs, 'start': st0}
 
 
 # ---- BEGIN vck leg: VC as processes on the kernel MODEL (lean/OnlVerif/Net/VCOnK.lean, driver mode `vck`) ----
@@ -738,6 +745,8 @@ def run(ctx, prop='C14', n_quick=3000, n_thorough=50000):
         hist['equal-stamp pairs at a decision'] += st['ties']
         hist['equal-stamp-and-instant pairs at a decision'] += st['full_ties']
         hist['fairness pairs checked'] += st['fair_pairs']
+        for k_, v_ in st['start'].items():
+            hist['start-of-transmission oracle: ' + k_] += v_
         ev3 = [e for e in r.hist if e[0] in ('arr', 'dep', 'done')]
         hist['arrivals to an empty scheduler before the loop booked the last packet out'] += sum(
             1 for i, e in enumerate(ev3) if e[0] == 'arr' and i > 0 and ev3[i - 1][0] == 'dep' and sum(n for n, _ in e[5].values()) == 1)
